@@ -307,15 +307,8 @@ ContextEdit(d) ==
 NewCur(p) ==
   IF Len(p.types) > Len(prog.types) /\ ~p.types[Len(p.types)].anon THEN Len(p.types) ELSE cur
 
-(* Starting contexts: the empty module, and a module whose first structure carries a scoped `$default byte_order'
-   of its own (attribute defaults are scoped: what follows that structure must not see it) *)
-SiblingContext ==
-  [mattrs |-> <<>>,
-   types |-> << [NewType("struct", TypeNames[1], 0, FALSE) EXCEPT
-                   !.attrs = <<DBO("BigEndian")>>,
-                   !.fields = <<Fld("phys", FieldNames[1], 0, 2, "UInt", 0, <<>>, <<>>)>>] >>]
-Init == /\ prog \in {[mattrs |-> <<>>, types |-> <<>>], SiblingContext}
-        /\ phase = "build" /\ cur = Len(prog.types) /\ nedits = 0 /\ last = "init"
+Init == /\ prog = [mattrs |-> <<>>, types |-> <<>>]
+        /\ phase = "build" /\ cur = 0 /\ nedits = 0 /\ last = "init"
 
 Edit ==
   /\ phase = "build" /\ nedits < MaxEdits
